@@ -217,19 +217,31 @@ def r_raise_inventory(ctx: Ctx, rule: str, classes: Optional[Set[str]] = None, e
             def is_membership(t: Node) -> Optional[bool]:
                 """True: proper membership test of the requested name in the group table; False: a test of the table that is not a membership test"""
                 e = t.ast
+                # (the test may sit in a helper spliced into f: paths and names are read in its frame and put in f's terms)
+                Pt = ctx.eff.paths(t.func)
+
+                def path_of(x):
+                    p_ = Pt.of(x)
+                    return ctx.eff.rebase(p_, t.func, t.env) if p_ else None
+
+                def role_of(x):
+                    fr_, _env, leaf = ctx.vals.trace(t.func, t.env, x)
+                    return expr_role(ctx, fr_, leaf) or expr_role(ctx, t.func, x)
+
                 if isinstance(e, ast.UnaryOp) and isinstance(e.op, ast.Not):
                     e = e.operand
                 if isinstance(e, ast.Compare) and len(e.ops) == 1 and isinstance(e.ops[0], (ast.In, ast.NotIn)):
                     c = e.comparators[0]
                     if isinstance(c, ast.Call) and isinstance(c.func, ast.Attribute) and c.func.attr == "keys":
                         c = c.func.value
-                    if P.of(c) == "self._task_groups" and expr_role(ctx, f, e.left) == "GROUP":
+                    if path_of(c) == "self._task_groups" and role_of(e.left) == "GROUP":
                         return True
                 if isinstance(e, ast.Compare) and len(e.ops) == 1 and isinstance(e.ops[0], (ast.Is, ast.IsNot)) and isinstance(e.comparators[0], ast.Constant) and e.comparators[0].value is None:
-                    l = e.left
-                    if isinstance(l, ast.Call) and isinstance(l.func, ast.Attribute) and l.func.attr == "get" and P.of(l.func.value) == "self._task_groups" and len(l.args) == 1:
+                    ls = ctx.vals.leaves_at(t, e.left.value if isinstance(e.left, ast.NamedExpr) else e.left)
+                    if ls and all(isinstance(l, ast.Call) and isinstance(l.func, ast.Attribute) and l.func.attr == "get" and len(l.args) in (1, 2)
+                                  and ctx.eff.rebase(ctx.eff.paths(fr_).of(l.func.value) or "", fr_, env_) == "self._task_groups" for fr_, env_, l in ls):
                         return True
-                if any(isinstance(x, ast.Attribute) and P.of(x) == "self._task_groups" for x in ast.walk(t.ast)):
+                if any(isinstance(x, (ast.Attribute, ast.Name)) and path_of(x) == "self._task_groups" for x in ast.walk(t.ast)):
                     return False
                 return None
 
